@@ -126,7 +126,8 @@ def seeded_mutants():
         props = [p for p, r in ev.get("checks_run", {}).items() if r.get("exit") == 1]
         if not props:
             continue
-        out.append({"id": f"seeded-{d}", "props": props[:1], "patch": pp, "rules": None, "expect": "violation"})
+        # a later repair of /repo can make a kept change harmless (recorded in its meta.json): it must then be silent
+        out.append({"id": f"seeded-{d}", "props": props[:1], "patch": pp, "rules": None, "expect": meta.get("superseded", {}).get("expect", "violation")})
     return out
 
 
